@@ -10,7 +10,7 @@ from ._wcommon import (ASSUMPTIONS, COMPONENTS_REAL, COMPONENTS_STUB, Hist, Viol
 from ._wcommon import abstract_states  # noqa: F401,E402
 
 ID = "C04"
-RUNS = {"quick": 6000, "thorough": 150000}
+RUNS = {"quick": 10000, "thorough": 150000}
 BUDGET_S = {"quick": 60, "thorough": 900}
 RULE = ("seeded scenario scripts biased to backlog >= A+P+3, long tasks and bursts, 1..3 workers on one broker server; "
         "a run is non-trivial if two deliveries overlapped inside callback() or a fault fired; distinct = distinct "
